@@ -994,6 +994,9 @@ class XandikosBackend(webdav.Backend):
         self._user_principals.add(posixpath.normpath(path))
 
     def create_collection(self, relpath):
+        if GIT_PATH in posixpath.normpath(relpath).split(posixpath.sep):
+            # Never create anything inside a repository's control directory.
+            raise FileNotFoundError(relpath)
         p = self._map_to_file_path(relpath)
         return Collection(self, relpath, TreeGitStore.create(p))
 
@@ -1013,6 +1016,11 @@ class XandikosBackend(webdav.Backend):
             raise ValueError("relpath %r should start with /")
         if relpath == "/":
             return RootPage(self)
+        if GIT_PATH in relpath.split(posixpath.sep):
+            # The control directory of a collection's repository is not a
+            # resource; opening it as a (bare) store would alias the
+            # collection and bypass its index.
+            return None
         p = self._map_to_file_path(relpath)
         if p is None:
             return None
